@@ -258,6 +258,115 @@ def check_blocks(model, rep):
                f'{oid} not established per block: {text}; assemble_csr only sees the concatenation, in which the defect is no longer visible, so the input is silently altered instead of rejected', statement=oid)
 
 
+def check_row_search(model, rep):
+    """R15.10: a column is looked up in one row of CSR data by searchsorted over the row's slice A[lo:hi]; the result equals the
+    length of the slice when the column is absent, and (offset by lo) is then the first position of the NEXT row.  Every read
+    A[pos] / S[pos] at that position must therefore be guarded by a comparison of the position with the end of the searched slice
+    (pos < len(S), or lo-offset pos < hi) - a comparison with any other length lets the next row's entry pass for this row's."""
+    n = 0
+    for f in model.functions.values():
+        if not f.module.short.startswith('matrix') or isinstance(f.node, ast.Lambda):
+            continue
+        assigns = {}
+        for s_ in ast.walk(f.node):
+            if isinstance(s_, ast.Assign) and len(s_.targets) == 1:
+                t = s_.targets[0]
+                if isinstance(t, ast.Name):
+                    assigns.setdefault(t.id, []).append(s_.value)
+                elif isinstance(t, ast.Tuple) and all(isinstance(e, ast.Name) for e in t.elts):
+                    for k, e in enumerate(t.elts):
+                        assigns.setdefault(e.id, []).append(('unpack', k, s_.value))
+            elif isinstance(s_, ast.For) and isinstance(s_.target, ast.Tuple):
+                for e in ast.walk(s_.target):
+                    if isinstance(e, ast.Name):
+                        assigns.setdefault(e.id, []).append(('loop', s_.iter))
+        for name, vals in assigns.items():
+            for v in vals:
+                if isinstance(v, tuple):
+                    continue
+                # pos = [lo +] searchsorted(S, x)  |  [lo +] S.searchsorted(x)
+                off, call = None, v
+                if isinstance(v, ast.BinOp) and isinstance(v.op, ast.Add):
+                    for a, b in ((v.left, v.right), (v.right, v.left)):
+                        if isinstance(b, ast.Call) and method_name(b) == 'searchsorted':
+                            off, call = a, b
+                if not (isinstance(call, ast.Call) and method_name(call) == 'searchsorted'):
+                    continue
+                S = call.args[0] if src(call.func) in ('numpy.searchsorted', 'searchsorted') else call.func.value
+                if isinstance(S, ast.Name) and len(assigns.get(S.id, [])) == 1 and isinstance(assigns[S.id][0], ast.Subscript):
+                    Sname, S = S.id, assigns[S.id][0]
+                else:
+                    Sname = None
+                if not (isinstance(S, ast.Subscript) and isinstance(S.slice, ast.Slice)):
+                    continue   # a search over a whole array: no neighbouring row behind its end
+                A, lo, hi = src(S.value), S.slice.lower, S.slice.upper
+                if lo is None or hi is None:
+                    continue
+                n += 1
+                ends = set()
+                if off is not None:
+                    if src(off) != src(lo):
+                        rep.ob('R15.10', f.key, f.where(v), False, f'`{src(v)}`: the offset `{src(off)}` is not the start `{src(lo)}` of the searched slice', statement=f'row-search {name}')
+                        continue
+                    ends = {src(hi)}
+                    reads = [x for x in ast.walk(f.node) if isinstance(x, ast.Subscript) and isinstance(x.ctx, ast.Load) and not isinstance(x.slice, ast.Slice) and src(x.slice) == name]
+                else:
+                    ends = {f'len({Sname})'} if Sname else set()
+                    ends |= {f'len({src(S)})', f'{src(hi)} - {src(lo)}'}
+                    reads = [x for x in ast.walk(f.node) if isinstance(x, ast.Subscript) and isinstance(x.ctx, ast.Load) and not isinstance(x.slice, ast.Slice) and
+                             name in {y.id for y in ast.walk(x.slice) if isinstance(y, ast.Name)}]
+                bad = None
+                for r in reads:
+                    conds = _short_circuit_conditions(f.node, r)
+                    if not any(isinstance(c, ast.Compare) and len(c.ops) == 1 and (
+                            (isinstance(c.ops[0], ast.Lt) and src(c.left) == name and src(c.comparators[0]) in ends) or
+                            (isinstance(c.ops[0], ast.Gt) and src(c.comparators[0]) == name and src(c.left) in ends)) for c in conds):
+                        bad = r
+                        break
+                ok = bad is None and bool(reads)
+                if not reads:
+                    continue
+                rep.ob('R15.10', f.key, f.where(bad if bad is not None else v), ok,
+                       f'`{name}` = position of a column within the row slice {src(S)}: every read at that position is guarded by `{name} < {sorted(ends)[0]}`' if ok else
+                       f'`{src(bad)}` reads at the searchsorted position `{name}` of the row slice {src(S)} without `{name} < {" / ".join(sorted(ends))}` holding: when the column is absent from the row the position is '
+                       'the first entry of the next row, whose value is then taken for this row', statement=f'row-search {name}')
+    if n < 2:
+        raise AnalysisError(f'R15.10: only {n} row searches found (Matrix.diagonal and MKLMatrix._precon_sym_direct expected)')
+
+
+def _short_circuit_conditions(fn, node):
+    """Conditions known to hold when `node` is evaluated: earlier operands of enclosing `and`s, tests of enclosing IfExp bodies
+    and of enclosing if statements (body side), decomposed over `and`."""
+    parents = {}
+    for p_ in ast.walk(fn):
+        for c in ast.iter_child_nodes(p_):
+            parents[c] = p_
+    out = []
+
+    def add(t):
+        if isinstance(t, ast.BoolOp) and isinstance(t.op, ast.And):
+            for v in t.values:
+                add(v)
+        else:
+            out.append(t)
+    cur = node
+    while cur in parents:
+        par = parents[cur]
+        if isinstance(par, ast.BoolOp) and isinstance(par.op, ast.And):
+            for v in par.values:
+                if v is cur:
+                    break
+                add(v)
+        elif isinstance(par, ast.IfExp) and cur is par.body:
+            add(par.test)
+        elif isinstance(par, ast.If) and cur in par.body:
+            add(par.test)
+        elif isinstance(par, (ast.FunctionDef, ast.Lambda)):
+            break
+        cur = par
+    return out
+
+
 CONSTRUCTORS = ['assemble_coo', 'assemble', 'assemble_block_csr', 'fromsparse', 'empty', 'diag', 'eye']
 
 
@@ -688,10 +797,12 @@ def run(model, rep, tier):
     rep.rule('R15.6', 'derived operators and caches of the Matrix base class')
     rep.rule('R15.7', 'matrix-array product contracts the first operand axis for any operand dimension')
     rep.rule('R15.9', 'assemble_block_csr establishes the per-block CSR obligations before re-basing and splicing')
+    rep.rule('R15.10', 'a searchsorted position within a row slice is compared with the end of that slice before it is read')
     rep.rule('R15.8', 'COO row compression rejects unsorted / out-of-range rows for every integer dtype')
     check_validation(model, rep)
     check_gateway(model, rep)
     check_blocks(model, rep)
+    check_row_search(model, rep)
     check_siblings(model, rep)
     check_arity(model, rep)
     check_base_operators(model, rep)
